@@ -37,6 +37,8 @@ pub struct NetOpts {
     pub v_min: f64,
     /// (fault injection only) allow two adjacent double gaps = coincident switch points
     pub allow_adjacent_double: bool,
+    /// (probability, lo, hi): a share of segments much shorter than one step of travel
+    pub short_links: Option<(f64, f64, f64)>,
 }
 
 impl NetOpts {
@@ -60,6 +62,7 @@ impl NetOpts {
             p_params: 0.3,
             v_min: 2.0,
             allow_adjacent_double: false,
+            short_links: None,
         }
     }
 }
@@ -202,7 +205,12 @@ struct Seg {
 
 fn make_seg(rng: &mut Rng, o: &NetOpts, z0: f64, z1_target: Option<f64>, typed: bool, types: &[TrainType], flags: &mut Vec<&'static str>) -> (Seg, f64) {
     let ex = o.exact_offsets;
-    let len = q(rng.lrange(o.len.0, o.len.1), ex).max(if ex { 1.0 } else { 0.5 });
+    let mut len = q(rng.lrange(o.len.0, o.len.1), ex).max(if ex { 1.0 } else { 0.5 });
+    if let Some((p, lo, hi)) = o.short_links {
+        if rng.chance(p) {
+            len = q(rng.range(lo, hi), ex).max(if ex { 1.0 } else { 0.5 });
+        }
+    }
     // elevation profile: 2..8 points, |grade| <= grade_max
     let n = rng.usize(2, 8);
     let mut offs: Vec<f64> = vec![0.0, len];
